@@ -32,7 +32,7 @@ class HttpImpl:
         self.prefix = prefix if prefix.endswith("/") else prefix + "/"
         self.toks = toks
         self.root = root
-        self.srv = make_server(frontend, root + "/data", prefix=self.prefix, **kw)
+        self.srv = make_server(frontend, root + "/data", prefix=prefix if frontend == "main" else self.prefix, **kw)
         self.notes = []
         self.errors = []
 
